@@ -27,7 +27,13 @@ On(s, e) ==
                  ELSE IF IsNotification(e.raw) THEN [s EXCEPT !.expected = Append(@, [origin |-> e.src, vbs |-> Bindings(e.raw)])] ELSE s,
           cl |-> << <<"MACHINERY_label_disagrees_with_decoder", Unspecified(e.raw) \/ e.kind = "unspecified" \/ (e.kind = "valid") = IsNotification(e.raw)>> >>]
     [] e.e = "callback" ->
-         [st |-> [s EXCEPT !.delivered = Append(@, [origin |-> e.origin, vbs |-> e.vbs])], cl |-> <<>>]
+         \* the pythonic TrapInfo view must agree with the raw Trap it wraps: origin, trap OID (2nd binding), uptime (1st binding,
+         \* TimeTicks -> timedelta, Values!TicksToDelta), payload keys (bindings 3..n)
+         [st |-> [s EXCEPT !.delivered = Append(@, [origin |-> e.origin, vbs |-> e.vbs])],
+          cl |-> IF Len(e.vbs) < 2 \/ ~Has(e, "info") THEN <<>>
+                 ELSE << <<"trapinfo_origin", e.info.origin = e.origin[1]>>,
+                         <<"trapinfo_oid", e.vbs[2][2] # TagOid \/ e.info.oid = e.vbs[2][3]>>,
+                         <<"trapinfo_payload_keys", e.info.keys = [k \in 1..(Len(e.vbs) - 2) |-> e.vbs[k + 2][1]] \/ Len(e.info.keys) < Len(e.vbs) - 2>> >>]
     [] e.e = "end" ->
          LET ex == s.expected dl == s.delivered n == IF Len(ex) < Len(dl) THEN Len(ex) ELSE Len(dl) IN
          [st |-> s,
